@@ -268,6 +268,25 @@ def run(tier, seed):
                       [x for cc in [c] for x in ([l3.defn(M.strip(cc.ops[2])).ops[0]] if l3.defn(M.strip(cc.ops[2])) is not None and l3.defn(M.strip(cc.ops[2])).op == "sub" else [])])
             rep.check(rid, okl, "level 3: total header length is u32 @24", l3.file, None, function=l3.cname, obj="header_len")
 
+        # the OS-9/68k quirk: a level-2 header of that tool declares a length two bytes short; two more bytes are read for it - at level 2
+        # only (a level-3 or level-0/1 header that did the same would swallow the first bytes of the member's data)
+        nq = 0
+        for lname in ("decode_level0_header", "decode_level2_header", "decode_level3_header"):
+            lf = mod.fn(lname)
+            if not lf:
+                continue
+            Mq = Matcher(lf)
+            for c in lf.calls("extend_raw_data"):
+                if not (is_const(Mq.strip(c.ops[2])) and const_val(Mq.strip(c.ops[2])) == 2):
+                    continue
+                nq += 1
+                if lname != "decode_level2_header":
+                    rep.violation(rid, "%s: no fixed two-byte extension (the OS-9/68k quirk belongs to level 2 only)" % lname, c.where(),
+                                  "extend_raw_data(header, stream, 2) is reachable in the level decoder of another header level", function=lname, obj="os9-quirk")
+                else:
+                    guarded_site(rep, rid, ctx, c, [("os_type == 'K' (OS-9/68k)", ("eq", ("load", ("field", HDR, "os_type", ANY)), 0x4b))])
+        rep.check(rid, nq >= 1, "the OS-9/68k two-byte quirk is present at level 2", "lib/lha_file_header.c", None, function="decode_level2_header", obj="os9-quirk-present")
+
         # ---- R3 extended-header registry and effect signatures ----------------------------------------------------------
         rid = rep.rule("R3", "extended-header registry: ten types once each with their min_len; each decoder has the reference effect signature", 30)
         REG = {0x00: ("ext_header_common_decoder", 2), 0x01: ("ext_header_filename_decoder", 1), 0x02: ("ext_header_path_decoder", 1),
